@@ -33,6 +33,15 @@ def scenarios(tier, seed):
                             "doneChan": i % 2 == 0, "tailLate": fail > 0 and (i // 2) % 2 == 0})
                 if out[-1]["order"] == "parallel":
                     out[-1]["nerr"] = n          # both streams at full volume, written at the same time
+    # a repeating step that goes on after a failed iteration (continueOn.failure): the iterations share one attempt, its log
+    # (and the stdout / stderr files) must hold what every iteration printed, also the ones after the failed one
+    for so, se in itertools.product([False, True], repeat=2):
+        for n in ([100, 5000] if tier == "quick" else [1, 100, 4097, 5000, 70000]):
+            for fail in (0, 1, 2):
+                i += 1
+                out.append({"id": i, "stdoutFile": so, "stderrFile": se, "output": False, "script": i % 3 == 0, "retries": 0, "failUntil": fail,
+                            "nout": n, "nerr": n // 2 + 1, "order": ["outfirst", "chunks", "errfirst"][i % 3], "doneChan": i % 2 == 0, "tailLate": False,
+                            "repeat": 3})
     # both streams written at the same time with output: set: the executor then drains two pipes concurrently into writers
     # that share the log (and the stdout file). A missing lock there corrupts only now and then (about 3 % of such runs),
     # so this configuration is repeated often
